@@ -24,7 +24,7 @@ DRIVER = 'Driver/C01.lean'
 REQUIRED_THEOREMS = ['CfVerif.C01.' + t for t in (
     'uplink_exactly_once_in_order', 'downlink_exactly_once_in_order', 'link_error_iff', 'safelink_only_if_confirmed',
     'safelink_confirmed_by_peer', 'needs_resending_eq', 'acked_iff_ok', 'ack_status_decoding', 'model_side_conditions',
-    'gen_safelink_handshake')]
+    'gen_safelink_handshake', 'acks_routed_to_sender', 'gen_shared_radio')]
 TRUSTED = ['harness/corr/c01.py extractor + correspondence harness (fake radio / fake USB device, Python twin of the peer)',
            'queue.Queue(1) is a one-slot FIFO hand-off; a blocked put completes when the slot is freed',
            '_SharedRadio/_SharedRadioInstance/RadioManager forward send_packet unchanged (exercised by L2, not modelled)']
@@ -228,6 +228,23 @@ def extract(ctx):
     X.expect(len(putc) == 1, 'RadioDriver.send_packet: expected one out_queue.put')
     g.strings('sendPutArgs', [ast.unparse(a) for a in putc[0].args])
     g.strings('sendReturns', [ast.unparse(n.value) for n in sorted((m for m in ast.walk(sp) if isinstance(m, ast.Return)), key=lambda m: m.lineno)])
+
+    # _SharedRadio: instance ids and the id -> response-queue table
+    sr = X.find(tree, '_SharedRadio')
+    oi = X.find(sr, 'open_instance')
+    withs = [n for n in ast.walk(oi) if isinstance(n, ast.With)]
+    X.expect(len(withs) == 1, '_SharedRadio.open_instance: expected one `with self._lock:` block')
+    g.strings('openInstanceStmts', [ast.unparse(st) for st in withs[0].body if not isinstance(st, ast.If)])
+    g.string('nextInstanceInit', ast.unparse(_assigns(X.find(sr, '__init__')).get('self._next_instance_id', ast.Constant(None))))
+    ctor = [n for n in ast.walk(oi) if isinstance(n, ast.Call) and ast.unparse(n.func) == '_SharedRadioInstance']
+    X.expect(len(ctor) == 1, '_SharedRadio.open_instance: expected one _SharedRadioInstance(...)')
+    g.strings('instanceCtorArgs', [ast.unparse(a) for a in ctor[0].args[:3]])
+    srun = X.find(sr, 'run')
+    g.strings('sharedDel', [ast.unparse(n) for n in ast.walk(srun) if isinstance(n, ast.Delete)])
+    sput = [ast.unparse(n) for n in ast.walk(srun) if isinstance(n, ast.Call) and ast.unparse(n.func).endswith('.put') and 'ack' in ast.unparse(n)]
+    g.strings('sharedAckPut', sput)
+    isend = X.find(X.find(tree, '_SharedRadioInstance'), 'send_packet')
+    g.strings('instanceSendGet', [ast.unparse(n.value) for n in ast.walk(isend) if isinstance(n, ast.Assign) and ast.unparse(n.targets[0]) == 'ack'])
 
     # Crazyradio.send_packet: ack decoding
     cr = X.parse('cflib/drivers/crazyradio.py')
@@ -536,8 +553,12 @@ class FakeUsbDev:
     def reset(self):
         pass
 
-    def ctrl_transfer(self, *a, **kw):
+    address = None          # last SET_RADIO_ADDRESS: which Crazyflie the next transmission is addressed to
+
+    def ctrl_transfer(self, bmRequestType=None, bRequest=None, *a, **kw):
         FakeUsbDev.ctrl += 1
+        if bRequest == 0x02:      # SET_RADIO_ADDRESS
+            FakeUsbDev.address = tuple(kw.get('data_or_wLength') or ())
 
     def write(self, endpoint, data, timeout=None):
         return FakeUsbDev.backend.usb_write(endpoint, bytes(bytearray(data)))
@@ -642,8 +663,16 @@ def run_l2(ops, nretries, peer0=(0, 1, 1, b''), full=True):
                     break
                 obs['died'] = (died[0].__name__ if died else 'an exception')
                 break
-            if waited > 20:
-                raise RuntimeError('closed run: script did not finish within 20 s (radio thread stuck: %d of %d transmissions done)'
+            if waited > (6 if full else 20):
+                # the link never gets an answer from the shared radio (only possible through what EARLIER sessions left
+                # behind in RadioManager): release the stuck thread, start the next case on a fresh shared radio
+                try:
+                    d._thread._sp = True
+                    d._radio._rsp_queue.put(None)
+                except Exception:
+                    pass
+                rd.RadioManager._radios = []
+                raise RuntimeError('STALLED closed run: script did not finish (radio thread stuck: %d of %d transmissions done)'
                                    % (hz.i, len(steps)))
         hz.teardown()
         d.close()
@@ -662,6 +691,224 @@ def run_l2(ops, nretries, peer0=(0, 1, 1, b''), full=True):
     obs['accepted'], obs['refused'], obs['received'], obs['err_log'] = hz.accepted, hz.refused, hz.received, hz.err_log
     obs['needs_resending'] = d.needs_resending
     return lines, twin, obs
+
+
+# ------------------------------------------------------------------------------------------------------
+# Several links sharing one Crazyradio: real RadioManager / _SharedRadio / _SharedRadioInstance with up to four
+# RadioDriver objects (one Crazyflie address each) opened and closed in any order while the others are in use.
+SLOTS = 'ABCD'
+
+
+def slot_uri(slot):
+    return 'radio://0/80/2M/E7E7E7E7%02X' % (0xA0 + SLOTS.index(slot))
+
+
+def slot_addr(slot):
+    return (0xE7, 0xE7, 0xE7, 0xE7, 0xA0 + SLOTS.index(slot))
+
+
+class _Session:
+    def __init__(self, slot, peer0, loss):
+        self.slot, self.twin, self.loss = slot, PeerTwin(*peer0), list(loss)
+        self.tx, self.outcomes, self.err_log = [], [], []
+        self.accepted, self.refused, self.received = [], [], []
+        self.driver = None
+        self.stalled = False
+        self.drained = False
+        self.needs_resending = None
+
+    def on_error(self, msg):
+        self.err_log.append((len(self.tx) - 1, _errkind(msg)))
+
+    def drain_rx(self):
+        while True:
+            pk = self.driver.receive_packet(0)
+            if pk is None:
+                break
+            self.received.append((pk.header, pk.port, pk.channel, bytes(pk.data)))
+
+
+def run_multi(case):
+    """case['script']: ('open',slot,peer0,loss) | ('close',slot) | ('sub',slot,hdr,data) | ('queue',slot,frame) | ('run',k).
+    Every live link transmits continuously (its radio thread free-runs through the shared radio); `loss` scripts the
+    outcomes of a session's first transmissions, afterwards everything is acknowledged.  ('run',k) waits until every
+    live link has completed k more transmissions.  Returns (reply lines for the instance-table model, failures)."""
+    import array
+    import threading
+    import time
+    import usb.core
+    rd = _rd()
+    from cflib.crtp.crtpstack import CRTPPacket
+    _install_usb()
+    rd.set_retries_before_disconnect(case['n'])
+    rd.RadioManager._radios = []            # a fresh shared radio (dongle 0) for this case
+    by_addr, live, sessions, lines, fails = {}, {}, [], [], []
+
+    class Backend:
+        reply = None
+
+        def usb_write(self, endpoint, frame):
+            se = by_addr.get(FakeUsbDev.address)
+            if se is None:
+                raise usb.core.USBError('no such link')
+            outcome = se.loss.pop(0) if se.loss else 'ok'
+            payload = b'' if outcome == 'up' else se.twin.recv(frame, 0x40 + (len(se.tx) & 0x3F))
+            self.reply = usb_reply((len(se.tx) & 0x0F) << 4, outcome, payload)
+            se.tx.append(frame)
+            se.outcomes.append(outcome)
+            return len(frame)
+
+        def usb_read(self, endpoint, size):
+            return array.array('B', self.reply)
+
+    FakeUsbDev.backend = Backend()
+    FakeUsbDev.address = None
+    old_hook = threading.excepthook
+    threading.excepthook = lambda args: fails.append(('thread-died', 'a thread of the radio stack died with %s' % args.exc_type.__name__,
+                                                      {'thread': getattr(args.thread, 'name', '?')}))
+
+    def advance(k, who=None):
+        """wait until every live, not stalled link (or only `who`) has done k more transmissions; returns the slots that did"""
+        ses = [se for se in live.values() if not se.stalled and (who is None or se is who)]
+        target = {id(se): len(se.tx) + k for se in ses}
+        t0 = time.time()
+        pending = list(ses)
+        while pending and time.time() - t0 < 6.0:
+            pending = [se for se in pending if len(se.tx) < target[id(se)]]
+            if pending:
+                time.sleep(0.0005)
+        for se in pending:
+            se.stalled = True
+            fails.append(('link-stalled', 'a link sharing the Crazyradio stopped transmitting: its radio thread never gets the '
+                          'answer to its transmission, accepted packets are not delivered', {'slot': se.slot, 'transmissions': len(se.tx)}))
+        return sorted(se.slot for se in ses if not se.stalled)
+
+    def close(se, drain):
+        if drain and not se.stalled:
+            advance(5 + len(se.twin.txq), se)
+            se.drained = not se.stalled
+        se.needs_resending = se.driver.needs_resending
+        th = threading.Thread(target=se.driver.close, daemon=True)
+        th.start()
+        th.join(3.0 if not se.stalled else 0.2)
+        if th.is_alive() and not se.stalled:
+            se.stalled = True
+            fails.append(('link-stalled', 'closing a link blocks: its radio thread is stuck', {'slot': se.slot}))
+        if th.is_alive():
+            # harness clean-up only: release the stuck (non-daemon) radio thread so that the process can exit
+            try:
+                se.driver._thread._sp = True
+                se.driver._radio._rsp_queue.put(None)
+            except Exception:
+                pass
+            th.join(1.0)
+        se.drain_rx()
+        del live[se.slot]
+        by_addr.pop(slot_addr(se.slot), None)
+
+    try:
+        for op in case['script']:
+            if op[0] == 'open':
+                _, slot, peer0, loss = op
+                if slot in live:
+                    continue
+                se = _Session(slot, peer0, loss)
+                sessions.append(se)
+                by_addr[slot_addr(slot)] = se
+                live[slot] = se
+                se.driver = rd.RadioDriver()
+                se.driver.connect(slot_uri(slot), None, se.on_error)
+                lines.append('ok')
+            elif op[0] == 'close':
+                if op[1] in live:
+                    close(live[op[1]], True)
+                    # the STOP command is ahead of every later transmission request in the shared radio's queue
+                    advance(2)
+                    lines.append('ok')
+            elif op[0] == 'sub':
+                se = live.get(op[1])
+                if se is not None and not se.stalled:
+                    pk = CRTPPacket()
+                    pk.header = op[2]
+                    pk.data = bytearray(op[3])
+                    (se.accepted if se.driver.send_packet(pk) else se.refused).append((op[2], bytes(op[3])))
+            elif op[0] == 'queue':
+                se = live.get(op[1])
+                if se is not None:
+                    se.twin.queue(op[2])      # (list append; the shared-radio thread pops from the other end)
+            elif op[0] == 'run':
+                lines.append('ok live=' + (','.join(advance(op[1])) or '-'))
+        for se in list(live.values()):
+            close(se, True)
+    finally:
+        threading.excepthook = old_hook
+        rd.set_retries_before_disconnect(100)
+        FakeUsbDev.address = None
+    # the property, per session
+    for se in sessions:
+        obs = {'tx': se.tx, 'outcomes': se.outcomes[:len(se.tx)], 'accepted': se.accepted, 'received': se.received,
+               'err_log': se.err_log, 'needs_resending': se.needs_resending}
+        if se.stalled:
+            continue        # already reported; its logs stop in the middle of a transmission
+        for (key, what, det) in property_failures({'ops': [], 'n': case['n']}, se.twin, obs):
+            det = dict(det)
+            det['slot'] = se.slot
+            fails.append((key, what, det))
+        if se.drained and not obs['needs_resending']:
+            raw = [bytes([h]) + bytes(d) for (h, d) in se.accepted]
+            if up_view(se.twin.rxq) != up_view(raw):
+                fails.append(('uplink-drain', 'accepted packets of a link sharing the radio were not all delivered, in order, exactly once',
+                              {'slot': se.slot, 'delivered': [x.hex() for x in up_view(se.twin.rxq)], 'accepted': [x.hex() for x in up_view(raw)]}))
+            rcv = down_view([bytes([h]) + d for (h, _, _, d) in se.received])
+            qd = down_view(se.twin.deq + se.twin.txq)
+            if rcv != qd:
+                fails.append(('downlink-drain', 'packets queued by the Crazyflie of a link sharing the radio did not all come out of '
+                              'receive_packet, in order, exactly once', {'slot': se.slot, 'received': [x.hex() for x in rcv], 'queued': [x.hex() for x in qd]}))
+        if se.refused:
+            fails.append(('send-refused', 'send_packet refused a packet although the link was up', {'slot': se.slot, 'refused': len(se.refused)}))
+    return lines, fails
+
+
+def lean_lines_multi(case):
+    out = ['sh reset']
+    live = set()
+    for op in case['script']:
+        if op[0] == 'open' and op[1] not in live:
+            live.add(op[1])
+            out.append('sh open ' + op[1])
+        elif op[0] == 'close' and op[1] in live:
+            live.discard(op[1])
+            out.append('sh close ' + op[1])
+        elif op[0] == 'run':
+            out.append('sh run')
+    return out
+
+
+def gen_multi(rng, toggles, traffic=True):
+    """toggles: sequence of slots; each occurrence opens the slot if it is closed and closes it if it is open"""
+    script, live, tag = [], set(), 0
+    for slot in toggles:
+        if slot in live:
+            live.discard(slot)
+            script.append(('close', slot))
+        else:
+            live.add(slot)
+            peer0 = (rng.randrange(2), rng.randrange(2), rng.randrange(2), _rand_payload(rng))
+            p_ok = rng.choice([1.0, 0.8, 0.5])
+            loss = [('ok' if rng.random() < p_ok else rng.choice(['up', 'ack'])) for _ in range(rng.choice([0, 6, 20]))]
+            if loss and 'ok' not in loss[:8]:
+                loss[rng.randrange(min(8, len(loss)))] = 'ok'
+            script.append(('open', slot, peer0, tuple(loss)))
+        for rep in range(rng.choice([1, 2]) if traffic else 0):
+            for sl in sorted(live):
+                if rng.random() < 0.8:
+                    tag += 1
+                    script.append(('sub', sl, ((rng.randrange(15) << 4) | 0x0C | rng.randrange(4)), bytes([tag & 0xFF, SLOTS.index(sl)])))
+                if rng.random() < 0.7:
+                    tag += 1
+                    script.append(('queue', sl, bytes([(rng.randrange(15) << 4) | rng.randrange(4), tag & 0xFF, SLOTS.index(sl)])))
+            script.append(('run', rng.choice([2, 3, 5])))
+    return {'kind': 'multi', 'n': rng.choice([3, 5, 100]), 'script': script}
 
 
 def lean_lines_l2(ops, nretries, peer0=(0, 1, 1, b'')):
@@ -979,6 +1226,14 @@ def gen_cases(ctx):
     # (6) arbitrary answers at the radio-object boundary
     for c in range(6000 if thorough else 1200):
         cases.append(gen_l1(rng, long=(c % 5 == 0)))
+    # (8) several links on one Crazyradio: EVERY open/close order of up to three links (toggle sequences of length <= 4 (5)),
+    #     traffic with loss on every live link after each step; plus random longer histories with four links
+    for k in range(1, (6 if thorough else 5)):
+        for toggles in itertools.product('ABC', repeat=k):
+            if toggles[0] == 'A' and (len(set(toggles)) < 2 or toggles.index('B' if 'B' in toggles else 'A') < (toggles.index('C') if 'C' in toggles else 99)):
+                cases.append(gen_multi(rng, toggles))      # up to renaming of the links
+    for c in range(150 if thorough else 30):
+        cases.append(gen_multi(rng, [rng.choice('ABCD') for _ in range(rng.randrange(3, 10))]))
     # (7) ack decoding: all 256 status bytes
     for rep in range(4 if thorough else 2):
         for st in range(256):
@@ -1012,6 +1267,8 @@ def case_from_json(j):
     c = dec(j)
     if c.get('kind') == 'closed':
         c['ops'] = list(c['ops'])
+    if c.get('kind') == 'multi':
+        c['script'] = list(c['script'])
     if c.get('kind') == 'l1':
         c['steps'] = [{'apps': list(s['apps']), 'ans': s['ans']} for s in c['steps']]
     return c
@@ -1036,6 +1293,8 @@ def lean_requests(case):
         return lean_lines_l1(case['steps'], case['n'])
     if case['kind'] == 'closed':
         return lean_lines_l2(case['ops'], case['n'], case['peer0'])
+    if case['kind'] == 'multi':
+        return lean_lines_multi(case)
     return ['dec %s %d' % ('none' if case['usb'] is None else hexs(case['usb']), case['arc'])]
 
 
@@ -1046,6 +1305,9 @@ def run_real(case):
     if case['kind'] == 'closed':
         lines, twin, obs = run_l2(case['ops'], case['n'], case['peer0'], full=case['full'])
         return ['ok'] + lines, property_failures(case, twin, obs)
+    if case['kind'] == 'multi':
+        lines, fails = run_multi(case)
+        return ['ok'] + lines, fails
     return [run_dec(case['usb'], case['arc'])], []
 
 
@@ -1054,6 +1316,8 @@ def case_desc(case):
         return {'level': 'L1', 'n': case['n'], 'steps': [(s['apps'], s['ans']) for s in case['steps']][:60]}
     if case['kind'] == 'closed':
         return {'level': 'L2' if case['full'] else 'L1c', 'n': case['n'], 'peer0': case['peer0'], 'ops': case['ops'][:80]}
+    if case['kind'] == 'multi':
+        return {'level': 'multi', 'n': case['n'], 'script': [op[:2] if op[0] == 'open' else op for op in case['script']][:80]}
     return {'level': 'dec', 'usb': None if case['usb'] is None else case['usb'].hex(), 'arc': case['arc']}
 
 
@@ -1103,11 +1367,25 @@ def _run_chunk(args):
             reqs += ll
         replies = run_driver(DRIVER, reqs, 1200)
     try:
+        multi_failed = 0
+        l2_stalled = 0
         for idx, c in enumerate(cases):
+            if c['kind'] == 'multi' and multi_failed >= 1:
+                continue        # a stalled link costs seconds and leaves stuck threads behind: one witness per worker is enough
+            if c['kind'] == 'closed' and c.get('full') and l2_stalled >= 2:
+                continue
             try:
                 real, fails = run_real(c)
+                if c['kind'] == 'multi' and fails:
+                    multi_failed += 1
             except Exception as e:
                 import traceback
+                if 'STALLED' in str(e):
+                    # not a stand-alone input (depends on the sessions run before it in this process): the multi-link
+                    # histories below reproduce this from a fresh shared radio and provide the replayable witness
+                    l2_stalled += 1
+                    count('L2:stalled-after-earlier-sessions')
+                    continue
                 res['errors'].append('%s on %s' % (''.join(traceback.format_exception(type(e), e, e.__traceback__))[-1500:], str(case_desc(c))[:600]))
                 if len(res['errors']) > 1:
                     break
@@ -1138,7 +1416,8 @@ def _run_chunk(args):
                         det = [d for (k, _, d) in run_real(cw)[1] if k == key][0]
                     except Exception:
                         cw = c
-                res['witnesses'].append((key, what, {'case': case_to_json(cw), 'details': det, 'ops': len(cw.get('ops', ()))}))
+                res['witnesses'].append((key, what, {'case': case_to_json(cw), 'details': det,
+                                                     'ops': len(cw.get('ops', ())) or len(cw.get('script', ()))}))
                 count('property-failure:' + key)
             if replies is not None:
                 a, b = spans[idx]
